@@ -1056,6 +1056,7 @@ func runC21(c *Ctx) {
 		})
 		c.check(okHdr && okTrim, "header", bid, p.Pos(f.Decl.Pos()), "the string starts with itemSep+kvSep and one trailing itemSep is trimmed", bid+" no longer starts its string with itemSep+kvSep (the decoder reads the separators from the first two characters) or no longer trims the trailing item separator")
 	}
+	checkParamsEmittedUnconditionally(c, "emission.unconditional")
 }
 
 // ---------------------------------------------------------------------------------------------------
@@ -1502,6 +1503,7 @@ func runC22(c *Ctx) {
 		}
 		c.check(initOK == 2, "range-to-read.initial", g.ID, p.Pos(g.Decl.Pos()), "without markers the whole request is served from the base file", "getRangeToRead no longer starts from (len, base): a file without tracked writes is not read entirely from the base")
 	}
+	checkRangeToReadAlwaysWalks(c, "range-to-read.always-walks")
 }
 
 func nos(s string) string { return strings.ReplaceAll(s, " ", "") }
